@@ -303,7 +303,11 @@ func newVfGW(x *vfExec, cfg *vfGWCfg, msgs map[string]vfMsgSpec, extra ...Option
 	}
 	if cfg.Extra["seqno_validator"] != "" {
 		g.meta = &vfMetaStore{m: map[peer.ID][]byte{}}
-		opts = append(opts, WithDefaultValidator(NewBasicSeqnoValidator(g.meta, slog.New(slog.NewTextHandler(io.Discard, nil)))))
+		var vo []ValidatorOpt
+		if cfg.Extra["seqno_validator"] == "inline" {
+			vo = append(vo, WithValidatorInline(true))
+		}
+		opts = append(opts, WithDefaultValidator(NewBasicSeqnoValidator(g.meta, slog.New(slog.NewTextHandler(io.Discard, nil))), vo...))
 	}
 	for _, vc := range cfg.Validators {
 		if vc.Topic == "" {
